@@ -5,7 +5,10 @@ The deciding monitor is a post-condition on the scheme constructors
 is validated against closed-form monomial integrals.  The workload constructs
 the complete documented family; additional differential clauses (boundary
 variant = lower-dimensional rule, permutation = reordering, cell-point order)
-compare pairs of constructed schemes.
+compare pairs of constructed schemes.  The hook judges an object against the
+arguments as the constructor bound them; the argument-form clauses (defaults,
+positional calls, truthy values, numpy integers) and the template defaults are
+judged against a shadow of what the caller wrote / what the template documents.
 """
 import numpy as np
 
@@ -25,8 +28,84 @@ DEFAULT_ORDER = {"RegionQuad": 1, "RegionQuadraticQuad": 2, "RegionBiQuadraticQu
                  "RegionQuadraticHexahedronBoundary": 2, "RegionTriQuadraticHexahedronBoundary": 2}
 
 
+# scheme class of the default rule of every region template, as printed in the template's docstring ("Quadrature rule: ...") and
+# written in its signature
+DEFAULT_CLASS = {"RegionQuad": "GaussLegendre", "RegionQuadraticQuad": "GaussLegendre", "RegionBiQuadraticQuad": "GaussLegendre",
+                 "RegionHexahedron": "GaussLegendre", "RegionQuadraticHexahedron": "GaussLegendre",
+                 "RegionTriQuadraticHexahedron": "GaussLegendre", "RegionConstantQuad": "GaussLegendre",
+                 "RegionConstantHexahedron": "GaussLegendre", "RegionVertex": "GaussLegendre", "RegionLagrange": "GaussLegendre",
+                 "RegionTriangle": "Triangle", "RegionQuadraticTriangle": "Triangle", "RegionTriangleMINI": "Triangle",
+                 "RegionTetra": "Tetrahedron", "RegionQuadraticTetra": "Tetrahedron", "RegionTetraMINI": "Tetrahedron",
+                 "RegionQuadBoundary": "GaussLegendreBoundary", "RegionQuadraticQuadBoundary": "GaussLegendreBoundary",
+                 "RegionBiQuadraticQuadBoundary": "GaussLegendreBoundary", "RegionHexahedronBoundary": "GaussLegendreBoundary",
+                 "RegionQuadraticHexahedronBoundary": "GaussLegendreBoundary",
+                 "RegionTriQuadraticHexahedronBoundary": "GaussLegendreBoundary"}
+
+# the templates of vmon.gen.template_cases (its names are the units every run must reach) ...
+TEMPLATE_NAMES = list(DEFAULT_ORDER) + ["RegionLagrange(order=2,dim=2)", "RegionLagrange(order=3,dim=2)", "RegionLagrange(order=2,dim=3)"]
+# ... and further RegionLagrange instances built here: (order, dim, permute); the template forwards all three to its rule
+LAGRANGE_MORE = [(1, 2, True), (4, 2, True), (5, 2, True), (3, 3, True), (1, 3, True), (3, 2, False), (2, 3, False)]
+
+# orders of the argument-form clauses: a single point, the two hard-coded permutations, the generated ones
+FORM_ORDERS = (0, 1, 2, 3)
+
+
 def lab_gl(order, dim, permute):
     return "GaussLegendre(order=%s,dim=%s,permute=%s)" % (order, dim, permute)
+
+
+def lab_lagrange(order, dim, permute):
+    return "RegionLagrange(order=%d,dim=%d,permute=%s)" % (order, dim, permute)
+
+
+def forms_gl(order, dim):
+    """Every other way to write ``(order, dim, permute=True)`` of the documented signature: (name, args, kwargs, permute meant).
+    The constructor hook judges an object against the arguments *as the constructor bound them* (a changed default, a swapped
+    positional order or ``permute is True`` are consistent with themselves there); these are judged against what the caller wrote."""
+    return [("positional", (order, dim), {}, True),
+            ("default-permute", (), dict(order=order, dim=dim), True),
+            ("positional-False", (order, dim, False), {}, False),
+            ("permute=1", (), dict(order=order, dim=dim, permute=1), True),
+            ("permute=0", (), dict(order=order, dim=dim, permute=0), False),
+            ("permute=np.True_", (), dict(order=order, dim=dim, permute=np.True_), True),
+            ("permute=np.False_", (), dict(order=order, dim=dim, permute=np.False_), False),
+            ("numpy-int", (), dict(order=np.int64(order), dim=np.int32(dim)), True),
+            ("numpy-int-positional", (np.int32(order), np.int64(dim), np.False_), {}, False)]
+
+
+def forms_plain(order, dim):
+    """Argument forms of the classes without ``permute`` (Gauss-Lobatto): positional and numpy integers."""
+    return [("positional", (order, dim), {}), ("numpy-int", (), dict(order=np.int64(order), dim=np.int32(dim))),
+            ("numpy-int-positional", (np.int32(order), np.int64(dim)), {})]
+
+
+FORMS_SIMPLEX = ("positional", "numpy-int")
+FORMS_SPHERE = ("no-argument", "positional", "numpy-int")
+
+
+def same_rule(a, b):
+    return (np.shape(a.points) == np.shape(b.points) and np.array_equal(a.points, b.points)
+            and np.shape(a.weights) == np.shape(b.weights) and np.array_equal(a.weights, b.weights))
+
+
+RAISED = []
+
+
+def judge_form(run, build, ref, args, label):
+    """One scheme built through another way of writing the same arguments: all clauses of the monitor against the arguments the
+    caller meant (a shadow of the call, not what the constructor made of them), and identity with the keyword construction.
+    A form that raises is loud and no verdict (the case reports it when all other forms have been judged)."""
+    try:
+        s = build()
+    except Exception as exc:
+        RAISED.append("%s: %s: %s" % (label, type(exc).__name__, exc))
+        return
+    MQ.validate_scheme(run, s, args, label=label)
+    if same_rule(s, ref):
+        run.ok("scheme.argument-forms", unit=label + ":same-rule", config=(label, "same-rule"))
+    else:
+        run.fail("scheme.argument-forms", "scheme=%s clause=same-rule" % label,
+                 "%s: not the rule of the keyword construction with the same arguments" % label, unit=label + ":same-rule")
 
 
 def sorted_rule(s, d=None):
@@ -37,11 +116,89 @@ def sorted_rule(s, d=None):
     return a[np.lexsort(a.T[::-1])]
 
 
+def lagrange_region(fem, order, dim, permute):
+    """RegionLagrange on one cell; ``permute=False`` pairs element and rule with a cell numbered in tensor-product order."""
+    from ..gen import lagrange_mesh
+    if permute:
+        return fem.RegionLagrange(lagrange_mesh(order, dim), order=order, dim=dim, permute=True)
+    import itertools
+    grid = np.array(list(itertools.product(range(order + 1), repeat=dim)), float)[:, ::-1] / order  # first axis fastest
+    X = grid * np.array([1.5, 1.2, 1.0])[:dim] + np.array([0.0, 0.5, -0.2])[:dim]
+    mesh = fem.Mesh(X, np.arange(len(X)).reshape(1, -1), "VTK_LAGRANGE_QUADRILATERAL" if dim == 2 else "VTK_LAGRANGE_HEXAHEDRON")
+    return fem.RegionLagrange(mesh, order=order, dim=dim, permute=False)
+
+
+# the functions of the micro-sphere frameworks carry a BazantOh(n=21) built at import time as default argument
+SPHERE_FRAMEWORKS = [(b, m, f) for b in ("jax", "tensortrax") for m, f in (
+    ("hyperelastic.microsphere._framework_affine", "affine_stretch"), ("hyperelastic.microsphere._framework_affine", "affine_stretch_statevars"),
+    ("hyperelastic.microsphere._framework_affine", "affine_tube"), ("hyperelastic.microsphere._framework_affine", "affine_tube_statevars"),
+    ("hyperelastic.microsphere._framework_nonaffine", "nonaffine_stretch"), ("hyperelastic.microsphere._framework_nonaffine", "nonaffine_tube"),
+    ("lagrange.microsphere._framework_affine", "affine_force_statevars"))]
+
+
+def sphere_defaults(run):
+    """Scheme objects built at import time as default arguments of the micro-sphere frameworks (before any monitor existed): every
+    function is called once with its own default rule on a quadratic integrand (degree 2 in the direction: the spherical average
+    of r.C.r is tr(C)/3, written out here; measured 1e-12, the precision of the 12-digit table; tolerance 2e-10), then the default
+    object is validated like a fresh BazantOh(n=21) and must be unchanged
+    (the frameworks hand ``quadrature.points`` to einsum un-copied; the object is shared by all later calls)."""
+    import importlib
+    import inspect
+    import felupe as fem
+    rng = np.random.default_rng(5)
+    A = np.eye(3) + 0.2 * rng.uniform(-1, 1, (3, 3))
+    Cm = A.T @ A
+    J = np.sqrt(np.linalg.det(Cm))
+    iso = J ** (-2 / 3) * np.trace(Cm) / 3  # average of the squared isochoric stretch
+    tube = J ** (2 / 3) * np.trace(np.linalg.inv(Cm)) / 3  # average of the squared isochoric area stretch
+    sq = lambda x, **kw: x ** 2
+    sq_sv = lambda x, sv, **kw: (x ** 2, sv)
+    sv0 = np.zeros(1)  # state variables are handed through
+    for backend, modname, fname in SPHERE_FRAMEWORKS:
+        unit = "BazantOh-default:%s.%s" % (backend, fname)
+        mod = importlib.import_module("felupe.constitution.%s.models.%s" % (backend, modname))
+        fn = getattr(mod, fname)
+        dflt = [v for v in (inspect.unwrap(fn).__defaults__ or ()) if isinstance(v, fem.quadrature.BazantOh)]
+        if len(dflt) != 1:
+            run.fail("scheme.default", "framework=%s.%s clause=default-is-BazantOh" % (backend, fname),
+                     "%s.%s: the default quadrature is not one BazantOh rule" % (backend, fname))
+            continue
+        q = dflt[0]
+        p0, w0 = np.array(q.points, copy=True), np.array(q.weights, copy=True)
+        if fname == "affine_stretch":
+            got, ref = fn(Cm, sq, {}), iso
+        elif fname == "affine_stretch_statevars":
+            got, ref = fn(Cm, sv0, sq_sv, {})[0], iso
+        elif fname == "affine_tube":
+            got, ref = fn(Cm, sq, {}), tube
+        elif fname == "affine_tube_statevars":
+            got, ref = fn(Cm, sv0, sq_sv, {})[0], tube
+        elif fname == "nonaffine_stretch":
+            got, ref = fn(Cm, 2, sq, {}), iso  # p = 2: the p-root average of the stretch, squared
+        elif fname == "nonaffine_tube":
+            got, ref = fn(Cm, 2, (lambda x, **kw: x), {}), tube
+        else:
+            # force = stretch (psi = stretch^2 / 2): dpsi/dE = sum w r(x)r = 1/3, S = J^(-2/3) dev-projection of it, P = F S
+            got = fn(A, sv0, (lambda x, sv, **kw: (x, sv)), {})[0]
+            ref = A @ (J ** (-2 / 3) * (np.eye(3) / 3 - np.trace(Cm) / 9 * np.linalg.inv(Cm)))
+        err = maxabs(np.asarray(got, float) - ref) / maxabs(ref)
+        run.compare("scheme.default", "framework=%s.%s clause=default-rule-in-use" % (backend, fname), err, 2e-10,
+                    "%s.%s with its default rule: the spherical average of a quadratic integrand is not the closed form" % (backend, fname),
+                    unit=unit + ":in-use", config=("BazantOh-default", backend, fname))
+        if np.array_equal(q.points, p0) and np.array_equal(q.weights, w0):
+            run.ok("scheme.default", unit=unit + ":unchanged")
+        else:
+            run.fail("scheme.default", "framework=%s.%s clause=default-rule-unchanged" % (backend, fname),
+                     "%s.%s changed its shared default quadrature object in place" % (backend, fname))
+        MQ.validate_scheme(run, q, {"n": 21}, label="%s.%s.quadrature=BazantOh(n=21)" % (backend, fname))
+
+
 def case_family(family):
     def fn(run):
         import felupe as fem
         Q = fem.quadrature
         MQ.attach_constructors(run)
+        del RAISED[:]
         try:
             if family == "gauss_legendre":
                 for dim in (1, 2, 3):
@@ -71,6 +228,11 @@ def case_family(family):
                             else:
                                 run.fail("scheme.cell-order", "scheme=%s clause=cell-order" % lab,
                                          "%s: permuted points do not follow the cell point ordering" % lab)
+                        if order in FORM_ORDERS:
+                            # default of permute, truthy / falsy non-bool values, positional calls, numpy integers
+                            for form, fa, fk, permute in forms_gl(order, dim):
+                                judge_form(run, (lambda: Q.GaussLegendre(*fa, **fk)), a if permute else b,
+                                           {"order": order, "dim": dim, "permute": permute}, "%s[%s]" % (lab_gl(order, dim, permute), form))
             elif family == "gauss_legendre_boundary":
                 for dim in (2, 3):
                     for order in GL_ORDERS:
@@ -82,10 +244,19 @@ def case_family(family):
                             run.compare("scheme.boundary-variant", "scheme=%s clause=boundary-variant" % lab, err, 1e-14,
                                         "%s: not the one-dimension-lower rule" % lab, unit=lab + ":boundary-variant",
                                         config=(lab, "boundary-variant"))
+                            if order in FORM_ORDERS:
+                                for form, fa, fk, pm in forms_gl(order, dim):
+                                    if pm == permute:
+                                        judge_form(run, (lambda: Q.GaussLegendreBoundary(*fa, **fk)), b, {"order": order, "dim": dim, "permute": permute},
+                                                   "%s[%s]" % (lab, form))
             elif family == "gauss_lobatto":
                 for dim in (1, 2, 3):
                     for order in LOB_ORDERS:
-                        Q.GaussLobatto(order=order, dim=dim)
+                        a = Q.GaussLobatto(order=order, dim=dim)
+                        if order in FORM_ORDERS:
+                            for form, fa, fk in forms_plain(order, dim):
+                                judge_form(run, (lambda: Q.GaussLobatto(*fa, **fk)), a, {"order": order, "dim": dim},
+                                           "GaussLobatto(order=%s,dim=%s)[%s]" % (order, dim, form))
                 for dim in (2, 3):
                     for order in LOB_ORDERS:
                         b = Q.GaussLobattoBoundary(order=order, dim=dim)
@@ -95,12 +266,20 @@ def case_family(family):
                         run.compare("scheme.boundary-variant", "scheme=%s clause=boundary-variant" % lab, err, 1e-14,
                                     "%s: not the one-dimension-lower rule" % lab, unit=lab + ":boundary-variant",
                                     config=(lab, "boundary-variant"))
+                        if order in FORM_ORDERS:
+                            for form, fa, fk in forms_plain(order, dim):
+                                judge_form(run, (lambda: Q.GaussLobattoBoundary(*fa, **fk)), b, {"order": order, "dim": dim}, "%s[%s]" % (lab, form))
             elif family == "simplex":
                 for order in (1, 2, 3, 5):
-                    Q.Triangle(order=order)
-                    Q.Tetrahedron(order=order)
+                    for C in (Q.Triangle, Q.Tetrahedron):
+                        a = C(order=order)
+                        for form, build in zip(FORMS_SIMPLEX, ((lambda: C(order)), (lambda: C(order=np.int64(order))))):
+                            judge_form(run, build, a, {"order": order}, "%s(order=%s)[%s]" % (C.__name__, order, form))
             elif family == "sphere":
-                Q.BazantOh(n=21)
+                a = Q.BazantOh(n=21)
+                for form, build in zip(FORMS_SPHERE, ((lambda: Q.BazantOh()), (lambda: Q.BazantOh(21)), (lambda: Q.BazantOh(n=np.int64(21))))):
+                    judge_form(run, build, a, {"n": 21}, "BazantOh(n=21)[%s]" % form)
+                sphere_defaults(run)
                 # the derived rule used by extrapolation: reciprocal points, same weights, the original untouched
                 for o in (1, 2, 3):
                     for dm in (1, 2, 3):
@@ -119,31 +298,57 @@ def case_family(family):
                 # scheme objects built at import time as default arguments (before any monitor existed) are
                 # validated where they are used: build every region template and validate region.quadrature
                 from ..gen import template_cases
-                for name, make in template_cases():
+                todo = [(name, make, True) for name, make in template_cases()]
+                for order, dm, permute in LAGRANGE_MORE:
+                    todo.append((lab_lagrange(order, dm, permute), (lambda order=order, dm=dm, permute=permute: lagrange_region(fem, order, dm, permute)),
+                                 permute))
+                for name, make, permute in todo:
                     reg = make()
                     q = reg.quadrature
                     cls = type(q).__name__
+                    base = name.split("(")[0]
+                    # the class the template documents, stated here (a template that comes with a rule of another class is a
+                    # verdict, not a template to pass over)
+                    if cls == DEFAULT_CLASS.get(base):
+                        run.ok("scheme.default", unit="default-class", config=("default-class", name))
+                    else:
+                        run.fail("scheme.default", "template=%s clause=default-class" % name,
+                                 "%s: the default quadrature is a %s, documented is %s" % (name, cls, DEFAULT_CLASS.get(base)))
                     if cls in ("GaussLegendre", "GaussLegendreBoundary"):
                         n1 = round(len(q.weights) ** (1.0 / (q.dim - (1 if cls.endswith("Boundary") else 0))))
                         args = {"order": n1 - 1, "dim": q.dim}
                     elif cls in ("Triangle", "Tetrahedron"):
-                        args = {"order": {1: 1, 3: 2, 4: 2 if cls == "Tetrahedron" else 3, 6: 3, 5: 3, 7: 5, 14: 5}.get(
-                            len(q.weights))}
                         # the order label is not stored on the object: infer it from the point count per class
-                        args["order"] = ({1: 1, 3: 2, 6: 3, 7: 5} if cls == "Triangle" else {1: 1, 4: 2, 5: 3, 14: 5})[
-                            len(q.weights)]
+                        args = {"order": ({1: 1, 3: 2, 4: 3, 7: 5} if cls == "Triangle" else {1: 1, 4: 2, 5: 3, 14: 5}).get(len(q.weights))}
+                        if args["order"] is None:
+                            run.fail("scheme.default", "template=%s clause=default-rule-known" % name,
+                                     "%s: the default %s rule has %d points, no documented order has" % (name, cls, len(q.weights)))
+                            continue
+                    elif cls in ("GaussLobatto", "GaussLobattoBoundary"):
+                        n1 = round(len(q.weights) ** (1.0 / (q.dim - (1 if cls.endswith("Boundary") else 0))))
+                        args = {"order": n1 - 2, "dim": q.dim}
                     else:
+                        run.skip("scheme.default", "default rule of a class outside the property's family (reported by clause=default-class)")
                         continue
                     # the inferred order only labels the exactness test; the order a template must at least come with is
                     # stated here literally (the documented defaults), so a lower rule under the same template name is seen
-                    base = name.split("(")[0]
                     need = DEFAULT_ORDER.get(base, (int(name.split("order=")[1][0]) if "order=" in name else None))
                     if need is not None:
                         run.compare("scheme.default", "template=%s clause=default-order" % name, float(max(0, need - args["order"])), 0.5,
                                     "%s: the default quadrature is %s(order=%s), documented is order %s" % (name, cls, args["order"], need),
                                     unit="default-order", config=("default-order", name))
+                    if base == "RegionLagrange":
+                        # the template forwards order, dim and permute to its rule: judged against the arguments of *this* call
+                        # (the point count of the inferred order says nothing)
+                        args = {"order": need, "dim": int(name.split("dim=")[1][0]), "permute": permute}
+                    elif cls.startswith("GaussLegendre"):
+                        # default of the templates: points in the cell point order of the element they are paired with
+                        args["permute"] = True
                     MQ.validate_scheme(run, q, args, label="%s.quadrature=%s(order=%s)" % (name, cls, args["order"]))
                     run.units["default-of-template"] += 1
+                    run.units["default-of-template:" + name] += 1
+            if RAISED:
+                raise RuntimeError("%d argument form(s) of the documented signature raised, first: %s" % (len(RAISED), RAISED[0]))
         finally:
             attach.detach_all()
     return fn
@@ -174,6 +379,49 @@ def _required():
             req += ["%s(order=%s):exactness" % (c, order), "%s(order=%s):inside" % (c, order),
                     "%s(order=%s):measure" % (c, order)]
     req += ["BazantOh(n=21):exactness", "BazantOh(n=21):inside", "BazantOh(n=21):measure", "default-of-template", "default-order", "scheme-attributes", "GaussLegendre.inv"]
+    # documented point count and order of the points of every enumerated scheme
+    for dim in (1, 2, 3):
+        for order in GL_ORDERS:
+            for p in (True, False):
+                req += [lab_gl(order, dim, p) + ":npoints", lab_gl(order, dim, p) + ":layout"]
+                if dim > 1:
+                    lab = "GaussLegendreBoundary(order=%s,dim=%s,permute=%s)" % (order, dim, p)
+                    req += [lab + ":npoints", lab + ":layout"]
+        for order in LOB_ORDERS:
+            req += ["GaussLobatto(order=%s,dim=%s):npoints" % (order, dim), "GaussLobatto(order=%s,dim=%s):layout" % (order, dim)]
+            if dim > 1:
+                req += ["GaussLobattoBoundary(order=%s,dim=%s):npoints" % (order, dim), "GaussLobattoBoundary(order=%s,dim=%s):layout" % (order, dim)]
+    for order in (1, 2, 3, 5):
+        for c in ("Triangle", "Tetrahedron"):
+            req.append("%s(order=%s):npoints" % (c, order))
+            for form in FORMS_SIMPLEX:
+                req += ["%s(order=%s)[%s]:%s" % (c, order, form, u) for u in ("same-rule", "npoints", "exactness")]
+    req.append("BazantOh(n=21):npoints")
+    for form in FORMS_SPHERE:
+        req += ["BazantOh(n=21)[%s]:%s" % (form, u) for u in ("same-rule", "npoints", "exactness")]
+    # the other ways of writing the arguments
+    for order in FORM_ORDERS:
+        for dim in (1, 2, 3):
+            for form, _, _, p in forms_gl(order, dim):
+                labs = [lab_gl(order, dim, p)] + (["GaussLegendreBoundary(order=%s,dim=%s,permute=%s)" % (order, dim, p)] if dim > 1 else [])
+                req += ["%s[%s]:%s" % (lab, form, u) for lab in labs for u in ("same-rule", "npoints", "layout", "exactness")]
+            for form, _, _ in forms_plain(order, dim):
+                labs = ["GaussLobatto(order=%s,dim=%s)" % (order, dim)] + (["GaussLobattoBoundary(order=%s,dim=%s)" % (order, dim)] if dim > 1 else [])
+                req += ["%s[%s]:%s" % (lab, form, u) for lab in labs for u in ("same-rule", "npoints", "layout", "exactness")]
+    # every template by name (a template that drops out of the defaults case is not made up for by the others), the class clause,
+    # the import-time rules of the micro-sphere frameworks
+    req.append("default-class")
+    for name in TEMPLATE_NAMES + [lab_lagrange(*a) for a in LAGRANGE_MORE]:
+        req.append("default-of-template:" + name)
+    for order, dm, permute in LAGRANGE_MORE:
+        lab = "%s.quadrature=GaussLegendre(order=%s)" % (lab_lagrange(order, dm, permute), order)
+        req += [lab + ":npoints", lab + ":layout", lab + ":exactness"]
+    for name in ("RegionQuad", "RegionHexahedron", "RegionBiQuadraticQuad", "RegionTriQuadraticHexahedron", "RegionQuadraticQuad",
+                 "RegionQuadraticHexahedron"):
+        req.append("%s.quadrature=GaussLegendre(order=%s):layout" % (name, DEFAULT_ORDER[name]))
+    for backend, _, fname in SPHERE_FRAMEWORKS:
+        req += ["BazantOh-default:%s.%s:in-use" % (backend, fname), "BazantOh-default:%s.%s:unchanged" % (backend, fname),
+                "%s.%s.quadrature=BazantOh(n=21):exactness" % (backend, fname)]
     return req
 
 
@@ -185,8 +433,16 @@ SPEC = {
              "default scheme of every region template; the constructor post-hook integrates every monomial up to the "
              "documented degree (2*order+1 per axis; total degree = order on simplices; degree 9 on the sphere) and "
              "compares with the closed form; a configuration is distinct by scheme label (class, order, dim, permute) "
-             "and non-trivial when all its monomials were integrated"),
+             "and non-trivial when all its monomials were integrated; every scheme additionally: documented number of points "
+             "(order+1 / order+2 per axis, tabulated simplex counts, n of the sphere rule) and documented order of the points "
+             "(cell point order of the VTK Lagrange cell where permute applies, tensor-product order with the first axis fastest "
+             "otherwise) against literal grids; orders 0..3 once more through every other way of writing the arguments "
+             "(default permute, positional, 1/0/np.bool_, numpy integers) against the arguments the caller meant; template "
+             "defaults by class and cell order, RegionLagrange(order 1..5, permute on/off) against the forwarded arguments; the "
+             "import-time BazantOh defaults of the 14 micro-sphere framework functions after one use each"),
     "assumptions": ["closed-form monomial integrals (factorial/Gamma formulas) are the reference",
-                    "table precision: BazantOh 5e-11 (12-digit table, measured 1e-12), all others 1e-12 relative to the measure"],
+                    "table precision: BazantOh 5e-11 (12-digit table, measured 1e-12), all others 1e-12 relative to the measure",
+                    "point counts of the simplex rules are those of the tabulated rules (1, 3, 4, 7 / 1, 4, 5, 14); the un-permuted "
+                    "layout is the tensor-product order with the first axis fastest and ascending abscissae"],
     "jobs": {"quick": 3, "thorough": 6},
 }
